@@ -223,6 +223,18 @@ impl FloatInterval {
         self.max = rounded_value;
     }
     
+    /// Fix the interval to exactly `value` (no rounding to the step grid): the float counterpart of
+    /// `SparseSet::remove_all_but`. A value outside the interval (by more than the half-step
+    /// tolerance of `contains`) leaves the interval empty instead of moving it there.
+    pub fn fix_to(&mut self, value: f64) {
+        if self.contains(value) {
+            self.min = value;
+            self.max = value;
+        } else {
+            self.max = self.min - 1.0; // Make empty
+        }
+    }
+    
     /// Remove values below the given threshold
     pub fn remove_below(&mut self, threshold: f64) {
         let tolerance = self.step / 2.0;
